@@ -380,7 +380,7 @@ func packedPairs(c *enum.Ctx) {
 
 func run(c *enum.Ctx) {
 	packedPairs(c)
-	c.Rule("every multiset of <=3 feature pairs over the 15 intervals [s,e) 0<=s<e<=5 on one location (thorough: 0..6, 21 intervals) and every multiset of <=2 pairs over two locations, in every insertion order, every orientation of each pair, with the five pair filters (nil, all, none, by score, by the extent of the piles the images lie on), a pile of 2^k-1, 2^k, 2^k+1 images (7..257) joined to a neighbouring pile by one feature added last, first or in the middle, the same after sequences of earlier Piles calls with other filters (partial, partial+nil, nil+partial; thorough also partial+none, all+partial), a repeated Piles call and a re-insertion of each pair in either orientation; every list of two hits over five intervals (shared and distinct ends) turned into pairs by NewPair on a packed sequence; reference = union-find over 'same location and overlapping or abutting'; distinct = (multiset, order, flips, filter); non-trivial = multisets with at least two features on one location that overlap or abut")
+	c.Rule("every multiset of <=3 feature pairs over the 15 intervals [s,e) 0<=s<e<=5 on one location (thorough: 0..6, 21 intervals) and every multiset of <=2 pairs over two locations, in every insertion order, every orientation of each pair, with the five pair filters (nil, all, none, by score, by the extent of the piles the images lie on), a pile of 2^k-1, 2^k, 2^k+1 (also 3*2^k, 10^j-1, 10^j, 10^j+1, 5*10^j) images (7..257) joined to a neighbouring pile by one feature added last, first or in the middle, the same after sequences of earlier Piles calls with other filters (partial, partial+nil, nil+partial; thorough also partial+none, all+partial), a repeated Piles call and a re-insertion of each pair in either orientation; every list of two hits over five intervals (shared and distinct ends) turned into pairs by NewPair on a packed sequence; reference = union-find over 'same location and overlapping or abutting'; distinct = (multiset, order, flips, filter); non-trivial = multisets with at least two features on one location that overlap or abut")
 	maxE := 5
 	if !c.Quick {
 		maxE = 6
@@ -515,7 +515,7 @@ func run(c *enum.Ctx) {
 			doSet(i, []pr{pb[i], pb[j]}, true)
 		}
 	})
-	// the size ladder of the pile depth: a pile of 2^k-1, 2^k, 2^k+1 images on A[10,21) (mates far apart on
+	// the size ladder of the pile depth: a pile of 2^k-1, 2^k, 2^k+1 (also 3*2^k, 10^j-1, 10^j, 10^j+1, 5*10^j) images on A[10,21) (mates far apart on
 	// B), a small pile on A[0,5), and one feature A[4,11) that joins the two - added last, first or in the
 	// middle; every filter
 	var deep []kase
